@@ -155,20 +155,26 @@ template <int B> struct Blk {
                     Dense Bm = bmat(amg, n, &l);
                     for (auto &row : Bm) for (auto &v : row) if (v.poison) { r.fail(what + "apply left an entry of x unwritten"); break; }
                     if (r.ok && symcfg && t.pre_cycles >= 1) {
+                        Dense Ad = dense(h.A);
+                        auto bmat_of = [&](const BHdr &hh, const Tail &tt, size_t &nlv) { auto prm1 = params(hh, rp, tt); AMG amg1(amgcl::adapter::block_matrix<val>(*As), prm1); nlv = amgcl_verif::access::levels(amg1).size(); return bmat(amg1, n, nullptr); };
+                        // plain aggregation with over_interp > 1 (default 2 for block value types): known finding K02.  Is the over-interpolation
+                        // the cause of a failing certificate?  The same input with over_interp = 1 (same aggregates) must be SPD and contract.
+                        auto over1_ok = [&]() {
+                            if (!(h.kind == 0 && !(h.s.v == Q(1).v) && nl >= 3)) return false;
+                            BHdr h1 = h; h1.s = Q(1); size_t nl1 = 0; Dense B1 = bmat_of(h1, t, nl1);
+                            return nl1 == nl && is_sym(B1) && is_spd(B1) && contracts(B1, Ad, n);
+                        };
                         if (!is_sym(Bm)) r.fail(notsym);
-                        else if (!is_spd(Bm)) r.fail(what + "B is not positive definite");
+                        else if (!is_spd(Bm)) {
+                            // pre_cycles >= 2: B = 2 B1 - B1 A B1 is indefinite as soon as the SINGLE cycle B1 (SPD) does not contract
+                            bool overint = false;
+                            if (t.pre_cycles >= 2 && over1_ok()) { Tail t1 = t; t1.pre_cycles = 1; size_t nl1 = 0; Dense Bs = bmat_of(h, t1, nl1); overint = nl1 == nl && is_sym(Bs) && is_spd(Bs) && !contracts(Bs, Ad, n); }
+                            if (overint) { r.fail("over-interpolation: B (" + std::to_string(t.pre_cycles) + " cycles) is symmetric but not positive definite for plain aggregation with over_interp > 1 on " + std::to_string(nl) + " levels: the single cycle is symmetric positive definite but not a contraction in the energy norm; the same input with over_interp = 1 is symmetric positive definite and contracts"); r.tag("over_interp_not_contracting"); }
+                            else r.fail(what + "B is not positive definite");
+                        }
                         else {
-                            Dense Ad = dense(h.A);
                             if (!contracts(Bm, Ad, n)) {
-                                // plain aggregation with over_interp > 1 (default 2 for block value types): known finding K02.  Is the
-                                // over-interpolation the cause?  The same input with over_interp = 1 (same aggregates) must contract.
-                                bool overint = false;
-                                if (h.kind == 0 && !(h.s.v == Q(1).v) && nl >= 3) {
-                                    BHdr h1 = h; h1.s = Q(1); auto prm1 = params(h1, rp, t); AMG amg1(amgcl::adapter::block_matrix<val>(*As), prm1);
-                                    Dense B1 = bmat(amg1, n, nullptr);
-                                    if (amgcl_verif::access::levels(amg1).size() == nl && is_sym(B1) && is_spd(B1)) overint = contracts(B1, Ad, n);
-                                }
-                                if (overint) { r.fail("over-interpolation: B is symmetric positive definite but the stationary iteration is not a contraction in the energy norm (A - E^T A E is not positive definite) for plain aggregation with over_interp > 1 on " + std::to_string(nl) + " levels; the same input with over_interp = 1 contracts"); r.tag("over_interp_not_contracting"); }
+                                if (over1_ok()) { r.fail("over-interpolation: B is symmetric positive definite but the stationary iteration is not a contraction in the energy norm (A - E^T A E is not positive definite) for plain aggregation with over_interp > 1 on " + std::to_string(nl) + " levels; the same input with over_interp = 1 contracts"); r.tag("over_interp_not_contracting"); }
                                 else r.fail(what + "stationary iteration is not a contraction in the energy norm: A - E^T A E is not positive definite");
                             }
                             r.tag("spd-certified");
